@@ -57,7 +57,8 @@ DIMS = OrderedDict([
     ("order", ["given", "reversed", "rotated"]),
     ("extras", ["V", "P0", "rho", "c110"]),
     ("cwd", ["empty", "dir", "file"]),
-    ("drop", [DEFAULT_DROP, 1.0]),
+    ("drop", [DEFAULT_DROP, 1.0, 0.1]),
+    ("shape", list(C8.SHAPES)),                    # volume dependence of the tensor: smooth / retained components dip below drop_atol at ONE volume
     ("tol", [None, 4.0]),
     ("rows", list(C8.ROWS)),                       # row labels of the frame: default / n-1..0 / offset, non-contiguous
     ("z", ["none", "zeros", "one", "zeros+one"]),  # supplied VANISHING components (see supplied_components)
@@ -176,10 +177,10 @@ def measures(system, S, vals, A):
             "maxabs": float(numpy.abs(r).max()), "maxrel": maxrel}
 
 
-def scenario(system, S, kind, ints, small, tol, A, zc=None):
+def scenario(system, S, kind, ints, small, tol, A, zc=None, shape="smooth"):
     """supplied values (|S| x NV), the invariant tensor they come from, the perturbed coordinate.
     zc: a supplied vanishing component that gets a clearly non-zero value at one volume."""
-    E = C8.expected_tensor(system, NV, ints=ints, small=small)
+    E = C8.expected_tensor(system, NV, ints=ints, small=small, shape=shape)
     vals = E[list(S)].copy() if S else numpy.zeros((0, NV))
     jstar = None
     if kind != "consistent":
@@ -296,7 +297,8 @@ def cfg_label(c):
     return (f"{c['system']} S={C8.names(L.mask_to_subset(c['system'], c['mask']))}{zs} kind={c['kind']} ignore_rank={c['ir']} "
             f"ignore_residuals={c['ires']} dtype={c['dtype']} case={c['case']} order={c['order']} extras={c['extras']} "
             f"cwd={c['cwd']} drop_atol={c['drop']} residual_atol={c['tol'] if c['tol'] is not None else 'default'}"
-            + ("" if c["rows"] == "default" else f" row-labels={c['rows']}"))
+            + ("" if c["rows"] == "default" else f" row-labels={c['rows']}")
+            + ("" if c["shape"] == "smooth" else f" value-shape={c['shape']}"))
 
 
 ROOT_DIMS = ("cwd", "extras", "dtype", "case", "order", "drop", "tol", "rows")
@@ -309,7 +311,7 @@ def execute(c, small=True):
     ints = c["dtype"] == "int"
     tol = DEFAULT_TOL if c["tol"] is None else c["tol"]
     A = relations_in_force(s, c["cwd"])
-    E, vals, jstar = scenario(s, S, c["kind"], ints, small, tol, A, c["zc"] if z_inconsistent(c) else None)
+    E, vals, jstar = scenario(s, S, c["kind"], ints, small, tol, A, c["zc"] if z_inconsistent(c) else None, c["shape"])
     table, nonmod = make_table(S, vals, ints, c["case"], c["order"], c["extras"], c["rows"])
     status, res = call_fill(s, table, c["cwd"], c["ir"], c["ires"], c["drop"], c["tol"])
     return S, tol, A, E, vals, jstar, table, nonmod, status, res
@@ -564,7 +566,7 @@ def _evaluate_float_of_ints(b):
     S = supplied_components(s, b["mask"], b["z"], b["zc"])
     tol = DEFAULT_TOL if b["tol"] is None else b["tol"]
     A = relations_in_force(s, "empty")
-    E, vals, _ = scenario(s, S, b["kind"], True, True, tol, A, b["zc"] if z_inconsistent(b) else None)
+    E, vals, _ = scenario(s, S, b["kind"], True, True, tol, A, b["zc"] if z_inconsistent(b) else None, b["shape"])
     table, _ = make_table(S, vals, False, "lower", "given", "V")
     status, res = call_fill(s, table, "empty", b["ir"], b["ires"], b["drop"], b["tol"])
     if status != "ok" or not isinstance(res, pandas.DataFrame) or len(res) != NV:
@@ -645,7 +647,7 @@ def run_cli(case):
     s = c["system"]
     S = supplied_components(s, c["mask"], c["z"], c["zc"])
     A = relations_in_force(s, "empty")
-    E, vals, jstar = scenario(s, S, c["kind"], False, True, DEFAULT_TOL, A, c["zc"] if z_inconsistent(c) else None)
+    E, vals, jstar = scenario(s, S, c["kind"], False, True, DEFAULT_TOL, A, c["zc"] if z_inconsistent(c) else None, c["shape"])
     table, nonmod = make_table(S, vals, False, "lower", "given", "V")
     suff = L.is_sufficient(s, S)
     ek = "large" if (c["kind"] == "large" or z_inconsistent(c)) else c["kind"]
@@ -653,6 +655,7 @@ def run_cli(case):
     args = cli_args(c)
     code, exc, out = invoke_cli(args, {"elast.dat": table_text(table)}, mkdirs=[s] if c["cwd"] == "dir" else [])
     lab = (f"`cij {' '.join(args)}` on table [V,{','.join(C8.names(S))}] kind={c['kind']} cwd={c['cwd']}"
+           + ("" if c["shape"] == "smooth" else f" value-shape={c['shape']}")
            + (f" (vanishing {c['zc']} non-zero)" if z_inconsistent(c) else ""))
     viol = []
     ename = type(exc).__name__ if exc is not None else "none"
@@ -979,6 +982,12 @@ def explore(ctx):
                             c = {"what": "cli", "system": s, "mask": mask, "kind": kind, "ir": ir, "ires": ires,
                                  "drop": drop, "cwd": cwd}
                             cases.append({k_: v for k_, v in c.items() if k_ not in DIMS or v != DIMS[k_][0]})
+    # ... value shape dip x --drop-atol
+    for s in L.SYSTEMS:
+        for label in ("min", "full"):
+            for drop in DIMS["drop"]:
+                c = {"what": "cli", "system": s, "mask": subsets[s][label], "shape": "dip", "drop": drop}
+                cases.append({k_: v for k_, v in c.items() if k_ not in DIMS or v != DIMS[k_][0]})
     # ... and the tables with supplied vanishing components / complete 21-column tables
     for s in L.SYSTEMS:
         van = vanishing(s)
